@@ -209,6 +209,8 @@ def known_unsound(entry):
     t = entry.tags
     if t & {"floordiv", "mod", "divmod"}:
         return True
+    if "rshift" in t and t & {"ss", "cs"}:
+        return True              # >> by a secret divides by 2**count through the same gadget
     if t & {"and", "or", "xor"} and t & {"sc", "cs"} and "int" in t:
         return True
     return entry.name in ("cmp_fdiv_add", "cmp_mod_eq")
